@@ -128,6 +128,13 @@ def run(res, tier, seed, shard, nshards):
             for mid in ((), ("PING",), ("C0",), ("C0", "PONG")):
                 for nxt in ("C1", "C0", "T1", "B0", "PING"):
                     cases.append(("half-closed-seq", pf, first, mid, nxt))
+    # (c3) the application logs a protocol error and calls receive again: every following frame is judged on its own merits
+    bads = {"rsv1-text": bytes([0xC1, 0x02]) + b"zz", "rsv2-binary": bytes([0xA2, 0x01]) + b"z", "opcode-3": bytes([0x83, 0x00]), "opcode-b": bytes([0x8B, 0x01]) + b"z",
+            "fragmented-ping": bytes([0x09, 0x01]) + b"p", "ping-126": bytes([0x89, 0x7E, 0x00, 0x7E]) + b"p" * 126, "fragmented-close": bytes([0x08, 0x02, 0x03, 0xE8])}
+    for b1 in bads:
+        for b2 in list(bads) + ["T1", "PING", "B0"]:
+            for name in ("recv_data_frame", "recv"):
+                cases.append(("after-protocol-rejection", b1, b2, name, bads))
     # (d) random longer sequences
     for i in range(300 if tier == "quick" else 6000):
         cases.append(("rseq", i))
@@ -141,6 +148,8 @@ def run(res, tier, seed, shard, nshards):
             elif c[0] in ("close", "close1"):
                 W.enableTrace(False)
                 close_case(res, W, rng, c)
+            elif c[0] == "after-protocol-rejection":
+                after_protocol_rejection_case(res, W, rng, c)
             elif c[0] == "half-closed-seq":
                 half_closed_seq_case(res, W, rng, c)
             elif c[0] == "after-payload-rejection":
@@ -200,6 +209,58 @@ def close_case(res, W, rng, c):
     # per-fragment delivery changes how data frames are handed over, not what a close frame may carry
     if code % 2 == 0 or code in (1001, 1011, 4999) or kind == "close1":
         judge(res, W, stream, [("recv_data_frame", True)], (kind + "-pf", code, rk, "recv_data_frame"), frame_under_test=(0, f), ws_kwargs={"fire_cont_frame": True})
+
+
+def after_protocol_rejection_case(res, W, rng, c):
+    _, b1, b2, name, bads = c
+    second = bads[b2] if b2 in bads else kind_frame(b2, 1) + (kind_frame("C1", 2) if b2 == "B0" else b"")
+    stream = bads[b1] + second + R.encode(R.TEXT, b"SENT")
+    w, conn, peer = H.connected_ws(after=stream, timeout=1)
+    case = {"gen": "after-protocol-rejection", "first": b1, "second": b2, "call": name, "stream": stream}
+    res.case(("apr2", b1, b2, name), nontrivial=True)
+
+    def call():
+        try:
+            if name == "recv":
+                return ("value", w.recv())
+            op, fr = w.recv_data_frame(True)
+            return ("value", (op, bytes(fr.data)))
+        except BaseException as e:  # noqa
+            if isinstance(e, (sched.SimAbort, KeyboardInterrupt)):
+                raise
+            return ("exc", e)
+
+    before = len(peer.client_stream)
+    first = call()
+    if not (first[0] == "exc" and isinstance(first[1], W.WebSocketProtocolException)):
+        return  # judged by the header cases
+    res.count("after_protocol_rejection_cases")
+    sec = call()
+    if b2 in bads:
+        res.count("must_reject_seen")
+        if not (sec[0] == "exc" and isinstance(sec[1], W.WebSocketProtocolException)):
+            res.violation("illegal-accepted", f"forbidden frame {b2} right after a rejected {b1} (the application went on receiving through {name}): got {sec[0]} "
+                          f"{repr(sec[1])[:80]}", case, gen="after-protocol-rejection", next=b2)
+            return
+        wrote = bytes(peer.client_stream[before:])
+        if wrote:
+            res.violation("writes-mismatch", f"forbidden frames {b1}, {b2}: the client wrote {wrote[:12].hex()} in response", case, gen="after-protocol-rejection", next=b2)
+        return
+    res.count("must_accept_seen")
+    if sec[0] == "exc":
+        res.violation("legal-rejected", f"legal {b2} right after a rejected {b1} through {name}: {type(sec[1]).__name__}: {sec[1]}", case, gen="after-protocol-rejection", next=b2)
+        return
+    exp = {"T1": (R.TEXT, b"TB"), "PING": (R.PING, b"pB"), "B0": (R.BINARY, b"\x00BCC")}[b2]
+    v = sec[1]
+    if name == "recv":
+        got = (exp[0], v.encode() if isinstance(v, str) else bytes(v))
+        if b2 == "PING":
+            exp = (R.PING, b"SENT")  # recv() answers the ping and returns the text that follows
+            got = (R.PING, v.encode() if isinstance(v, str) else bytes(v))
+    else:
+        got = v
+    if got != exp:
+        res.violation("value-mismatch", f"legal {b2} right after a rejected {b1} through {name}: expected {exp}, got {got}", case, gen="after-protocol-rejection", next=b2)
 
 
 def half_closed_seq_case(res, W, rng, c):
@@ -311,11 +372,21 @@ def seq_case(res, W, rng, seq, exhaustive):
         judge(res, W, stream, [("recv_data_frame", True)] * (len(seq) + 1), ("seq-pf" if exhaustive else "rseq-pf", seq, "recv_data_frame"), frame_under_test=None, ws_kwargs=kw)
 
 
+RESPONSE_EXTRAS = [(), (), ("Sec-WebSocket-Extensions: permessage-deflate",), ("Sec-WebSocket-Extensions: permessage-deflate; client_max_window_bits=15", "Server: x/1"),
+                   ("sec-websocket-extensions: PerMessage-Deflate",), ("X-Frame-Options: rsv1-ok", "Sec-WebSocket-Version: 13")]
+_JUDGE_N = [0]
+
+
 def judge(res, W, stream, script, tag, frame_under_test, ws_kwargs=None):
     kw = ws_kwargs or {}
     pf = bool(kw.get("fire_cont_frame"))
     pred, model = M.predict(stream, script, ending="eof", per_fragment=pf, validate_utf8=not kw.get("skip_utf8_validation"))
-    obs = H.run_recv_script(stream, script, ending="eof", ws_kwargs=kw)
+    # headers of the handshake response that a client offering no extension has no use for: the frame rules stay what they are
+    _JUDGE_N[0] += 1
+    extra = RESPONSE_EXTRAS[_JUDGE_N[0] % len(RESPONSE_EXTRAS)]
+    if extra:
+        res.count("cases_with_extra_response_headers")
+    obs = H.run_recv_script(stream, script, ending="eof", ws_kwargs=kw, extra_headers=extra)
     issues, judged, unj = M.compare(pred, obs, per_fragment=pf)
     if pf:
         res.count("per_fragment_mode_cases")
@@ -330,7 +401,7 @@ def judge(res, W, stream, script, tag, frame_under_test, ws_kwargs=None):
         res.count("reject_reason:" + why)
     elif not unj:
         res.count("must_accept_seen")
-    case = {"tag": tag, "stream": stream, "script": script[0]}
+    case = {"tag": tag, "stream": stream, "script": script[0], "response_extra_headers": list(extra)}
     for kind, detail, fields in issues:
         res.violation(kind, f"{tag}: {detail}", case, gen=tag[0], **fields)
     if exp_reject:
